@@ -24,8 +24,10 @@ fn driver(prop: &str) -> Option<(&'static str, fn(&mut Cx, &mut Rng) -> R)> {
         "C10" => ("C10", props::c10::case),
         "C11" => ("C11", props::c11::case),
         "C12" => ("C12", props::c12::case),
+        "C13" => ("C13", props::c13::case),
         "C15" => ("C15", props::c15::case),
         "C16" => ("C16", props::c16::case),
+        "C20" => ("C20", props::c20::case),
         _ => return None,
     })
 }
